@@ -1,7 +1,7 @@
 import os
 ID = 'C20'
 LEVEL = 'other'
-CONTRACT_MODULES = ['contracts.order', 'contracts.regions', 'contracts.catalogs', 'contracts.calc', 'contracts.evals', 'contracts.stats', 'contracts.cateval', 'contracts.catforecast', 'contracts.cellorder']
+CONTRACT_MODULES = ['contracts.order', 'contracts.regions', 'contracts.catalogs', 'contracts.calc', 'contracts.evals', 'contracts.stats', 'contracts.cateval', 'contracts.catforecast', 'contracts.cellorder', 'contracts.fcfile']
 CONE = ['lemma:C20:bin1d_vec is an elementwise function of the points',
         'lemma:C20:spatial_counts under a permutation of the events',
         'lemma:C20:spatial_event_probability under a permutation of the events',
@@ -13,12 +13,13 @@ CONE = ['lemma:C20:bin1d_vec is an elementwise function of the points',
         'csep.utils.stats.greater_equal_ecdf', 'csep.utils.stats.less_equal_ecdf', 'csep.utils.stats.get_quantiles',
         'lemma:C20:Poisson joint log-likelihood under a permutation of the cells',
         'lemma:C20:binary joint log-likelihood under a permutation of the cells',
-        'lemma:C20:Brier score under a permutation of the cells']
+        'lemma:C20:Brier score under a permutation of the cells',
+        'csep.core.forecasts.GriddedForecast.load_ascii']
 ORACLE_MODULES = ['rt.oracles_catfc', 'rt.oracles_eval', 'rt.oracles_contracts', 'rt.oracles_grid', 'rt.oracles_io']
 BOUNDED = os.path.exists(os.path.join(os.path.dirname(__file__), '..', 'rt', 'bounded_C20.py'))
 FLOAT_MODEL = 'R (floats as reals): the relational lemmas compare two runs of the same real body, so rounding enters both runs identically'
 TRUSTED = ['numpy.add.at / fancy indexing / mask selection models', 'the oracles in rt/ compute the expected outcome from the property statement, independently of the code under test', 'pyvc engine, z3 5.1']
-ASSUMPTIONS = ['deductive part: re-ordering the EVENTS of the observed catalog leaves the gridded counts every gridded test consumes (spatial, magnitude, space-magnitude counts, spatial event flags) unchanged and the lookups end the same way - proved by self-composition of the real bodies for Cartesian regions satisfying RI; the catalog number test run on a forecast and on the same forecast with its synthetic catalogs re-ordered by an arbitrary bijection reports the same observed statistic and the same quantiles (self-composition + L5_perm_cge/cle); the W-test kernel and the empirical quantile functions are functions of counts and sums over the sample (their contracts: value == CGE/n, CLE/n), hence order-free; re-ordering the CELLS together with rates and gridded observations leaves the Poisson / binary joint log-likelihood and the Brier score (the observed statistics of the gridded consistency tests) unchanged - lemmas over the score contracts with the Lean-checked L5_perm_sum; that the public tests hand exactly these arrays to the scores is their plumbing contract (C05 / C16), that a re-ordered region grids the same events into the re-ordered cells is C01 / C03; the end-to-end re-ordering of cells + rates through files and regions, the other catalog-based tests and the fixed-seed bit-identity are decided by the bounded run-time contract only', 'the cell-numbering clause rests on the get_index_of contract (C01): the reported index is the stored number of the cell that contains the point, whatever the numbering']
+ASSUMPTIONS = ['deductive part: re-ordering the EVENTS of the observed catalog leaves the gridded counts every gridded test consumes (spatial, magnitude, space-magnitude counts, spatial event flags) unchanged and the lookups end the same way - proved by self-composition of the real bodies for Cartesian regions satisfying RI; the catalog number test run on a forecast and on the same forecast with its synthetic catalogs re-ordered by an arbitrary bijection reports the same observed statistic and the same quantiles (self-composition + L5_perm_cge/cle); the W-test kernel and the empirical quantile functions are functions of counts and sums over the sample (their contracts: value == CGE/n, CLE/n), hence order-free; re-ordering the CELLS together with rates and gridded observations leaves the Poisson / binary joint log-likelihood and the Brier score (the observed statistics of the gridded consistency tests) unchanged - lemmas over the score contracts with the Lean-checked L5_perm_sum; that the public tests hand exactly these arrays to the scores is their plumbing contract (C05 / C16), that a re-ordered region grids the same events into the re-ordered cells is C01 / C03; load_ascii keeps the cells in FILE order whatever that order is (its contract, shared with C11: polygon c and data row c belong to file cell c), so a file with re-ordered cell blocks gives consistently re-ordered polygons and rates; the end-to-end re-ordering of cells + rates through regions and tests, the other catalog-based tests and the fixed-seed bit-identity are decided by the bounded run-time contract only', 'the cell-numbering clause rests on the get_index_of contract (C01): the reported index is the stored number of the cell that contains the point, whatever the numbering']
 EXPLANATION = 'relational lemmas by self-composition: the real spatial_counts / spatial_event_probability / magnitude_counts / spatial_magnitude_counts are executed on a catalog and on the same catalog re-ordered by an arbitrary bijection; both runs end the same way and return equal arrays (counting lemma L5: counts are invariant under a bijection of the index range; bin1d_vec enters through its elementwise view, itself proved on the real body); plus the bounded run-time contract over every public test on permuted events / synthetic catalogs / (cells + rates)'
 TECHNIQUE = 'relational contracts (self-composition of the real bodies, callees inlined or used through a proved elementwise view), Lean-checked permutation lemma, z3; bounded run-time contracts for the whole-test clauses'
 LEVEL_TEXT = 'other: event-order invariance of all gridded counts (Cartesian regions), synthetic-catalog order for the catalog number test and cell-order invariance of the three gridded scores are proved; the remaining clauses are bounded only'
